@@ -473,6 +473,47 @@ def run_shared_template(chk, n_programs, n_sched):
             tplgen.clear_census()
 
 
+def run_real_ids(chk, n_programs, n_sched):
+    """The library's own id generator under pre-emption (everywhere else ids come from a sequential counter patched in for
+    comparability): 2-3 provider-free renders, pre-emption at every line of util/nanoid.py, util/misc.py and
+    perfutil/component.py; each render gives what it gives alone and nothing stays registered (seeded/C07-5: ids cut
+    from a shared, unsynchronised pool of random bytes — two threads get the same id)."""
+    import django_components.cache as DC
+    gated = ("util/nanoid.py", "util/misc.py", "perfutil/component.py")
+    found = 0
+    tplgen.unpatch_ids()
+    try:
+        for i in range(n_programs * 20):
+            if found >= n_programs:
+                break
+            r, isolated, progs = gen_progs(i, "provider-free-realids", 2 if i % 3 else 3, False)
+            DC.template_cache = None
+            solo = solo_outcomes(progs, isolated)
+            if any(o.startswith("ERR") for o, _ in solo):
+                continue
+            expected = [o for o, _ in solo]
+            found += 1
+            for j in range(n_sched):
+                rr = core.rng(PROP, "realids-sched-%d" % i, j)
+                outs, residue, s = run_schedule(progs, isolated, sched.random_priorities(rr, rr.choice([0.1, 0.3, 0.6])),
+                                                rr.randrange(len(progs)), gated=gated)
+                if s.stuck or "STUCK" in outs:
+                    chk.count("real-ids/stuck", 1)
+                    continue
+                chk.count("real-ids", 1, validated=len(progs))
+                chk.nontrivial(("real-ids", i, j))
+                bad = [t for t in range(len(progs)) if outs[t] != expected[t]]
+                if bad or residue != ZERO:
+                    chk.violation("impl-violates-spec", "real-ids", {"programs": progs, "isolated": isolated, "schedule": "random-%d" % j,
+                                  "switch_trace": s.trace[:60]}, impl={"outcomes": outs, "alone": expected, "residue": residue},
+                                  spec="every render gives the output it gives alone; nothing is left in the registries",
+                                  note="with the library's own id generator, thread(s) %s differ from their solo run; switches: %s || " % (
+                                      bad, s.trace[:10]) + " || ".join(l for p in progs for l in rc.describe(p)))
+                    return
+    finally:
+        tplgen.patch_ids()
+
+
 def run(tier: str) -> int:
     chk = core.Check(PROP, tier, THEOREMS, "DESIGN.md §8 C07")
     chk.build_and_audit()
@@ -488,6 +529,7 @@ def run(tier: str) -> int:
         run_lru(chk, 25, atomic=True)
         run_assets(chk, 4)
         run_shared_template(chk, 10, 8)
+        run_real_ids(chk, 8, 10)
     else:
         explore(chk, "provider-free", 120, [1, 3, 10, 25, 50, 80, 150, 300], 30, failing=False)
         explore(chk, "healthy", 120, [1, 3, 10, 25, 50, 80, 150, 300], 30, failing=False)
@@ -498,6 +540,7 @@ def run(tier: str) -> int:
         run_lru(chk, 600, atomic=True)
         run_assets(chk, 60)
         run_shared_template(chk, 100, 20)
+        run_real_ids(chk, 80, 25)
     chk.assumptions += [
         "pre-emption points: every line of the gated files; pre-emption inside a line, C-level dict atomicity and "
         "first-access class initialisation inside CPython are not exhibited",
